@@ -93,6 +93,11 @@ CHECKS = {
             "TLC enumerates all typed value pairs of a 10-type nested universe with structural eq and lexicographic cmp (laws: equivalence, antisymmetry, transitivity, consistency, prefix rule checked on the model) and all well-formed integer format specifiers of the documented grammar x values; the interpreter's eq/ne/cmp/lt/le/gt/ge/to_str/format/hash must agree (equal => equal hash, hash in [0, 2^64)). Sort and order statistics are compared with the stable reference on inputs up to 200 elements; a comparator that raises a violation at the k-th comparison (every k) or an error on a poison element must give that outcome with accounting balanced (XrRuntime trace validation).",
             "Float formatting with precision, Stack/Set/Mapping text, median/rank functions and '^' odd padding are not covered.",
             "DESIGN.md 6 C19"),
+    "C20": ("model_checking",
+            "TLA+ day-step calendar machine with closed forms proved against it by TLC (XrConv) replayed into date/julian_day/weekday/datetime/unix; fraction results as events accepted by the XrBigInt limb-arithmetic acceptor (cross-multiplication, lowest terms, positive denominator); inverse laws for radix text, code points and JSON replayed",
+            "TLC walks every day of a +-150,000-day (quick) / +-1,100,000-day (thorough) window forwards and backwards from 2000-01-01 with the leap-year rules as transitions and checks that the closed-form Julian-day/date/weekday functions agree with the walk in every state; those closed forms predict date(jdn), julian_day(date), weekday for the range ends, every century boundary and random days of +-3,000,000, and the day part of Unix times over +-10^11 s (seconds of the day incl. fractions split by the driver), and the interpreter must agree exactly. Fractions: every construction (int pairs to 2^70, floats by their exact ratio), + - * / and cmp is an event TLC accepts only if it is exact by cross-multiplication in limb arithmetic, in lowest terms with a positive denominator. to_int(text(x, b), b) for all b in 2..36, format b/o/x, to_str, chr/code_point over scalar values incl. surrogate edges (errors), and random JSON documents (serialise -> independent parser -> same document; deserialise(serialise(d)) == d) are replayed inverse laws.",
+            "The JSON and radix/code-point clauses are differential inverse-law checks (Python's json is the independent parser), not TLC-decided; the calendar walk covers +-1.1M days, the remainder of +-3M relies on the 400-year periodicity of the closed forms checked on the walk; Duration arithmetic and Date/Datetime formatting are not covered.",
+            "DESIGN.md 6 C20"),
 }
 
 NOT_YET = {}
